@@ -40,9 +40,37 @@ type c18Reg struct {
 	copy  []byte // private copy taken at return time
 }
 
+// c18Kept is a GetResponse the harness keeps and only asks for its value later.
+type c18Kept struct {
+	Src  string
+	Key  string
+	g    *olric.GetResponse
+	want []byte
+}
+
 type c18State struct {
 	mu   sync.Mutex
 	regs []*c18Reg
+	kept []*c18Kept
+}
+
+// sweepKept calls the accessors of every retained GetResponse now and compares
+// the result with the value that was stored when the Get was answered.
+func (s *c18State) sweepKept() (bad *c18Kept, got []byte, n int) {
+	s.mu.Lock()
+	defer s.mu.Unlock()
+	for _, k := range s.kept {
+		n++
+		b, err := k.g.Byte()
+		if err != nil || !bytes.Equal(b, k.want) {
+			return k, b, n
+		}
+		str, err := k.g.String()
+		if err != nil || str != string(k.want) {
+			return k, []byte(str), n
+		}
+	}
+	return nil, nil, n
 }
 
 func (s *c18State) addBytes(src, key string, b []byte) {
@@ -80,7 +108,8 @@ func c18Child(ctx *runCtx, spec string) {
 	var values, replicas int
 	var seed int64
 	fmt.Sscanf(spec, "R=%d values=%d seed=%d", &replicas, &values, &seed)
-	c, err := cluster.Start(cluster.Config{Replicas: replicas, Partitions: 3, TableSize: 1024}, 2)
+	async := strings.Contains(spec, "async")
+	c, err := cluster.Start(cluster.Config{Replicas: replicas, Partitions: 3, TableSize: 1024, Async: async}, 2)
 	if err != nil {
 		ctx.rep.Inconclusive("cluster start: " + err.Error())
 		return
@@ -158,13 +187,23 @@ func c18Child(ctx *runCtx, spec string) {
 			violate("returned-value-changed", after, bad)
 			return false
 		}
+		kb, got, kn := st.sweepKept()
+		ctx.rep.Count("retained_responses_swept", int64(kn))
+		if kb != nil {
+			ctx.rep.Violate(fmt.Sprintf("c18|retained-response-changed|after=%s|src=%s", after, kb.Src),
+				fmt.Sprintf("the GetResponse obtained by %s for key %s was kept; its accessors return %q after %s, the value at Get time was %q", kb.Src, kb.Key, short(string(got)), after, short(string(kb.want))),
+				map[string]interface{}{"src": kb.Src, "key": kb.Key, "at_get": string(kb.want), "now": string(got), "after": after, "seed": seed})
+			return false
+		}
 		return true
 	}
 
 	keys := make([]string, values)
+	written := map[string][]byte{}
 	for i := range keys {
 		keys[i] = fmt.Sprintf("key-%d", i)
-		if err := embFor(keys[i], true).Put(bg, keys[i], val(i)); err != nil {
+		written[keys[i]] = val(i)
+		if err := embFor(keys[i], true).Put(bg, keys[i], append([]byte(nil), written[keys[i]]...)); err != nil {
 			ctx.rep.Inconclusive("setup put: " + err.Error())
 			return
 		}
@@ -188,6 +227,41 @@ func c18Child(ctx *runCtx, spec string) {
 				st.addString("Get/"+rd.src+"/String", k, s)
 			}
 			ctx.rep.Count("values_registered_via_"+rd.src, 1)
+			// a second, independent Get whose response object is kept and only read at sweep time
+			if g2, err := rd.dm.Get(bg, k); err == nil {
+				st.mu.Lock()
+				st.kept = append(st.kept, &c18Kept{Src: "Get/" + rd.src + "/kept-response", Key: k, g: g2, want: written[k]})
+				st.mu.Unlock()
+				ctx.rep.Count("responses_retained_via_"+rd.src, 1)
+			}
+		}
+	}
+	// ---- pipelined Gets of the cluster client: values registered, responses kept
+	if cdm, ok := ccdm.(*olric.ClusterDMap); ok {
+		if pipe, err := cdm.Pipeline(); err == nil {
+			futs := map[string]*olric.FutureGet{}
+			for _, k := range keys {
+				futs[k] = pipe.Get(bg, k)
+			}
+			if err := pipe.Exec(bg); err == nil {
+				for _, k := range keys {
+					g, err := futs[k].Result()
+					if err != nil {
+						continue
+					}
+					b, _ := g.Byte()
+					st.addBytes("Get/PL/Byte", k, b)
+					if g2, err := futs[k].Result(); err == nil {
+						st.mu.Lock()
+						st.kept = append(st.kept, &c18Kept{Src: "Get/PL/kept-response", Key: k, g: g2, want: written[k]})
+						st.mu.Unlock()
+					}
+					ctx.rep.Count("values_registered_via_PL", 1)
+				}
+			} else {
+				ctx.rep.Inconclusive("pipeline Exec: " + err.Error())
+			}
+			pipe.Close()
 		}
 	}
 	ctx.rep.Eval(len(keys))
@@ -282,6 +356,25 @@ func c18Child(ctx *runCtx, spec string) {
 		k := fmt.Sprintf("scribble-%d", i)
 		want := val(5000 + i)
 		_ = embFor(k, true).Put(bg, k, want)
+		backupsReady := true
+		if async {
+			// the backups are written in the background: wait until they hold the value
+			backupsReady = false
+			for try := 0; try < 100; try++ {
+				have := 0
+				bms := c.BackupsOf(name, k)
+				for _, bm := range bms {
+					if e, ok := bm.V.DMap.VerifEntry(partitions.BACKUP, name, k); ok && bytes.Equal(e.Value, want) {
+						have++
+					}
+				}
+				if have == len(bms) {
+					backupsReady = true
+					break
+				}
+				time.Sleep(30 * time.Millisecond)
+			}
+		}
 		for _, rd := range []struct {
 			src string
 			dm  olric.DMap
@@ -290,11 +383,22 @@ func c18Child(ctx *runCtx, spec string) {
 			if err != nil {
 				continue
 			}
+			// a second caller reads the same key before the first one modifies its bytes
+			gTwin, errTwin := rd.dm.Get(bg, k)
 			b, _ := g.Byte()
 			for j := range b {
 				b[j] ^= 0xff
 			}
 			ctx.rep.Count("scribbled_returned_slices", 1)
+			if errTwin == nil {
+				if bt, _ := gTwin.Byte(); !bytes.Equal(bt, want) {
+					ctx.rep.Violate(fmt.Sprintf("c18|other-caller-sees-modification|read=%s", rd.src),
+						fmt.Sprintf("two Gets of %s via %s; after flipping the bytes of the first result the second result reads %q instead of %q", k, rd.src, short(string(bt)), short(string(want))),
+						map[string]interface{}{"key": k, "read_via": rd.src})
+					return
+				}
+				ctx.rep.Count("twin_reads_compared", 1)
+			}
 			// every path and white-box on primary and backups must still see the original
 			for _, chk := range []struct {
 				src string
@@ -317,43 +421,102 @@ func c18Child(ctx *runCtx, spec string) {
 				return
 			}
 			for _, bm := range c.BackupsOf(name, k) {
+				if !backupsReady {
+					break
+				}
 				if e, ok := bm.V.DMap.VerifEntry(partitions.BACKUP, name, k); !ok || !bytes.Equal(e.Value, want) {
 					ctx.rep.Violate("c18|store-changed-by-caller|read="+rd.src+"|seen-by=whitebox-backup", "backup copy changed after the caller modified returned bytes", map[string]interface{}{"key": k})
 					return
 				}
 			}
 		}
-		// buffers passed to Put may be reused as soon as Put returns
+		// buffers passed to Put / GetPut (plain and pipelined) may be reused as soon as the call returns
+		cdm, _ := ccdm.(*olric.ClusterDMap)
 		for _, wr := range []struct {
 			src string
 			dm  olric.DMap
-		}{{"EO", embFor(k, true)}, {"EN", embFor(k, false)}, {"CC", ccdm}} {
+			op  string
+		}{{"EO", nil, "Put"}, {"EN", nil, "Put"}, {"CC", ccdm, "Put"},
+			{"EO", nil, "GetPut"}, {"EN", nil, "GetPut"}, {"CC", ccdm, "GetPut"},
+			{"PL", nil, "Put"}, {"PL", nil, "GetPut"}} {
+			// a fresh key per write: a copy of it is either absent or must equal what was passed
+			wk := fmt.Sprintf("%s-%s-%s", k, wr.src, wr.op)
 			buf := append([]byte(nil), val(6000+i)...)
 			orig := append([]byte(nil), buf...)
-			if err := wr.dm.Put(bg, k, buf); err != nil {
+			switch wr.src {
+			case "EO":
+				wr.dm = embFor(wk, true)
+			case "EN":
+				wr.dm = embFor(wk, false)
+			}
+			var werr error
+			switch {
+			case wr.src == "PL":
+				if cdm == nil {
+					continue
+				}
+				pipe, err := cdm.Pipeline()
+				if err != nil {
+					continue
+				}
+				if wr.op == "Put" {
+					_, werr = pipe.Put(bg, wk, buf)
+				} else {
+					_, werr = pipe.GetPut(bg, wk, buf)
+				}
+				if werr == nil {
+					werr = pipe.Exec(bg)
+				}
+				pipe.Close()
+			case wr.op == "Put":
+				werr = wr.dm.Put(bg, wk, buf)
+			default:
+				_, werr = wr.dm.GetPut(bg, wk, buf)
+			}
+			if werr != nil {
 				continue
 			}
 			for j := range buf {
 				buf[j] = 'Z'
 			}
-			ctx.rep.Count("scribbled_put_buffers", 1)
-			g, err := ccdm.Get(bg, k)
+			ctx.rep.Count("scribbled_"+wr.op+"_buffers_via_"+wr.src, 1)
+			tag := "path=" + wr.src
+			if wr.op != "Put" {
+				tag += "|op=" + wr.op
+			}
+			if async {
+				tag += "|async"
+			}
+			g, err := ccdm.Get(bg, wk)
 			if err == nil {
 				b, _ := g.Byte()
 				if !bytes.Equal(b, orig) {
-					ctx.rep.Violate("c18|put-buffer-aliased|path="+wr.src, fmt.Sprintf("after reusing the buffer passed to Put via %s the stored value reads %q", wr.src, short(string(b))), map[string]interface{}{"key": k})
+					ctx.rep.Violate("c18|put-buffer-aliased|"+tag, fmt.Sprintf("after reusing the buffer passed to %s via %s the stored value reads %q", wr.op, wr.src, short(string(b))), map[string]interface{}{"key": wk})
 					return
 				}
 			}
-			for _, bm := range c.BackupsOf(name, k) {
-				if e, ok := bm.V.DMap.VerifEntry(partitions.BACKUP, name, k); ok && !bytes.Equal(e.Value, orig) {
-					ctx.rep.Violate("c18|put-buffer-aliased|path="+wr.src+"|backup", "backup copy changed after the Put buffer was reused", map[string]interface{}{"key": k})
-					return
+			for _, bm := range c.BackupsOf(name, wk) {
+				// asynchronous replication: the copy may arrive later; it must still be the value that was passed
+				deadline := 60
+				if !async {
+					deadline = 1
+				}
+				for try := 0; try < deadline; try++ {
+					e, ok := bm.V.DMap.VerifEntry(partitions.BACKUP, name, wk)
+					if ok && bytes.Equal(e.Value, orig) {
+						ctx.rep.Count("backup_copies_compared_after_buffer_reuse", 1)
+						break
+					}
+					if ok {
+						ctx.rep.Violate("c18|put-buffer-aliased|"+tag+"|backup", fmt.Sprintf("backup copy reads %q after the buffer passed to %s via %s was reused", short(string(e.Value)), wr.op, wr.src), map[string]interface{}{"key": wk})
+						return
+					}
+					time.Sleep(50 * time.Millisecond)
 				}
 			}
 		}
 	}
-	ctx.rep.Distinct(fmt.Sprintf("R=%d|followup=scribble", replicas))
+	ctx.rep.Distinct(fmt.Sprintf("R=%d|followup=scribble|async=%v", replicas, async))
 	// ---- follow-up 4: migration — a third member joins and the partitions are balanced
 	if _, err := c.AddMember(); err == nil {
 		_ = c.WaitStable(20 * time.Second)
@@ -387,7 +550,7 @@ func c18Child(ctx *runCtx, spec string) {
 }
 
 func c18Run(ctx *runCtx) int {
-	ctx.rep.Rule = "one evaluation = one key whose value is read through EO/EN/CC (Byte and String accessors), GetPut and iterators and registered with a private copy; follow-ups: overwrite, delete, 12 rounds of churn + compaction to completion on 1 KiB tables (recycled tables observed white-box), scribbling over returned slices and Put buffers (stored value re-read on every path and white-box on primary and backups), migration to a third member + churn; distinct_nontrivial = distinct follow-up kinds actually exercised"
+	ctx.rep.Rule = "one evaluation = one key whose value is read through EO/EN/CC (Byte and String accessors), GetPut and iterators and registered with a private copy; follow-ups: overwrite, delete, 12 rounds of churn + compaction to completion on 1 KiB tables (recycled tables observed white-box), GetResponse objects that are kept and only asked for their value at every sweep (EO/EN/CC and pipelined Gets), scribbling over returned slices (stored value re-read on every path and white-box on primary and backups; a second caller's result of the same key must not change) and over buffers passed to Put / GetPut, plain and pipelined, with synchronous and asynchronous replication, migration to a third member + churn; distinct_nontrivial = distinct follow-up kinds actually exercised"
 	ctx.rep.Assumptions = []string{"a data race between the harness reader goroutine and olric code is a violation (race binary); other race reports are diagnostics"}
 	values := 60
 	if ctx.tier == "thorough" {
@@ -398,6 +561,7 @@ func c18Run(ctx *runCtx) int {
 		{Spec: fmt.Sprintf("R=2 values=%d seed=%d", values, ctx.seed*10+2), Timeout: 10 * time.Minute},
 		{Spec: fmt.Sprintf("R=1 values=%d seed=%d", values/2, ctx.seed*10+3), Timeout: 15 * time.Minute, Race: true},
 		{Spec: fmt.Sprintf("R=2 values=%d seed=%d", values/2, ctx.seed*10+4), Timeout: 15 * time.Minute, Race: true},
+		{Spec: fmt.Sprintf("R=2 values=%d seed=%d async", values/2, ctx.seed*10+5), Timeout: 10 * time.Minute},
 	}
 	if ctx.tier == "thorough" {
 		// more seeds: other key placements, other table roll-over points
